@@ -29,6 +29,9 @@ pub enum Call {
     /// `view.clone()` taken while other threads use the view, then `lines()` and `line_count()` on
     /// the clone (free-running stress only: a clone has no yield point of its own)
     CloneLines,
+    /// a `lines()` iterator kept alive while the same thread calls `get_line` and `line_count`
+    /// (an iterator that held a lock of the view would block its own thread for good)
+    LinesHeld,
 }
 
 #[derive(Clone, Debug, Hash, Serialize, Deserialize)]
@@ -170,6 +173,18 @@ fn perform(view: &SourceView, call: Call) -> Answer {
         Call::GetLine(i) => Answer::Line(view.get_line(i).map(str::to_string)),
         Call::LineCount => Answer::Count(view.line_count()),
         Call::Lines => Answer::All(view.lines().map(str::to_string).collect()),
+        Call::LinesHeld => {
+            let mut it = view.lines();
+            let mut all: Vec<String> = it.by_ref().take(1).map(str::to_string).collect();
+            let n = view.line_count();
+            let first = view.get_line(0).map(str::to_string);
+            all.extend(it.map(str::to_string));
+            if n != all.len() || first.as_deref() != all.first().map(|s| s.as_str()) {
+                Answer::Count(n)
+            } else {
+                Answer::All(all)
+            }
+        }
         Call::CloneLines => {
             let c = view.clone();
             let n = c.line_count();
@@ -193,7 +208,7 @@ fn expected(text: &str, call: Call) -> Answer {
     match call {
         Call::GetLine(i) => Answer::Line(lines.get(i as usize).map(|s| s.to_string())),
         Call::LineCount => Answer::Count(lines.len()),
-        Call::Lines | Call::CloneLines => Answer::All(lines.iter().map(|s| s.to_string()).collect()),
+        Call::Lines | Call::CloneLines | Call::LinesHeld => Answer::All(lines.iter().map(|s| s.to_string()).collect()),
     }
 }
 
@@ -609,11 +624,12 @@ fn exhaustive(t: Tier) -> Box<dyn Iterator<Item = Case>> {
         // 2 threads x 1 call, with the lines() iterator as well
         let mut c1 = calls.clone();
         c1.push(Call::Lines);
+        c1.push(Call::LinesHeld);
         let nlines = ref_lines(text).len();
         for a in &c1 {
             for b in &c1 {
                 // two racing lines() iterators have ~C(4n+2, 2n+1) interleavings: quick keeps them to short texts
-                if *a == Call::Lines && *b == Call::Lines && nlines > 2 && t == Tier::Quick {
+                if matches!(a, Call::Lines | Call::LinesHeld) && matches!(b, Call::Lines | Call::LinesHeld) && nlines > 2 && t == Tier::Quick {
                     continue;
                 }
                 out.push(Scenario { text: text.to_string(), threads: vec![vec![*a], vec![*b]] });
@@ -757,7 +773,7 @@ fn run_stress(ctx: &mut Ctx) {
                     0 => vec![Call::GetLine(nlines - 1), Call::LineCount],
                     1 => vec![Call::LineCount, Call::GetLine(0)],
                     2 => vec![Call::GetLine(nlines), Call::GetLine((t as u32) % nlines)],
-                    3 => vec![Call::CloneLines, Call::GetLine(nlines)],
+                    3 => vec![Call::CloneLines, Call::GetLine(nlines), Call::LinesHeld],
                     _ => vec![Call::Lines],
                 };
                 std::thread::spawn(move || {
